@@ -580,9 +580,10 @@ class FunctionType(Type):
         """Adds a list of extension requirements to the function type, and
         returns the new signature.
         """
-        exts = set(self.runtime_reqs)
-        exts = exts.union(runtime_reqs)
-        return FunctionType(self.input, self.output, [*exts])
+        # keep the order of the requirements: first the existing ones, then
+        # the new ones that are not listed yet
+        exts = list(dict.fromkeys([*self.runtime_reqs, *runtime_reqs]))
+        return FunctionType(self.input, self.output, exts)
 
     def __str__(self) -> str:
         return f"{comma_sep_str(self.input)} -> {comma_sep_str(self.output)}"
